@@ -12,6 +12,7 @@ Next == FALSE /\ UNCHANGED <<d0, dT, w, inst>>
 Spec == Init /\ [][Next]_<<d0, dT, w, inst>>
 Emit == PrintT(ToJson([d0 |-> d0, dT |-> dT, w |-> w, inst |-> inst,
                        valid |-> ValidAttrs(d0, dT, w, inst),
+                       vsimple |-> ValidUnderSimpleType(inst), vany |-> ValidUnderAnyType(inst),
                        dec1 |-> DecSeq(Decoded(d0, dT, w, inst, TRUE)),
                        dec0 |-> DecSeq(Decoded(d0, dT, w, inst, FALSE)),
                        dec1f |-> DecSeq(DecodedFill(d0, dT, w, inst, TRUE)),
